@@ -27,7 +27,7 @@ func init() {
 			"proceeds to rate limiting. The single exception is the FORMERR answer for a malformed ECS option, which " +
 			"C05 demands and which is written before any access decision.",
 		NotCovered: "what the urlfilter engines behind IsBlockedHost / blockedHostsEng match; effects inside third-party libraries reached from the access decision.",
-		Rules: map[string]string{"C10-R21": "the profile map of the profile database is written by the synchronisation (setProfiles) only: no other function, in particular not the request path (CreateAutoDevice), stores a profile object of its own there, which would put an older access configuration back after a newer one was synchronised", "C10-R22": "geoip.ipToCacheKey: the location cache keys an IPv4 address by its first three bytes (the /24 it belongs to) and an IPv6 address by its first seven: two clients share a cached location (and its ASN, which access rules test) only inside one such network", "C10-R20": "agdnet.NormalizeQueryDomain keeps the root name \".\" as it is (decided on the argument itself, before any normalisation empties it) and normalises every other name", "C10-R19": "the name handed to the global blocked-name rules (access.Interface.IsBlockedHost) is the question name normalised by agdnet.NormalizeQueryDomain, as for the profile's rules: the root stays \".\" (the empty string that NormalizeDomain makes of it matches no rule)", "C10-R18": "geoip.File.Refresh clears both location caches after it has installed the new databases (shared with C05-R10)", "C10-R16": "no call in package dnsserver passes same-typed arguments crossed (local and remote address of a connection, by the names of the getters that produced them)", "C10-R17": "builder.initAccess creates and assigns the global access manager on every successful path, empty lists included (a nil *access.Global wrapped in the service's interface field panics on the first request)", "C10-R14": "conversion loops of backendpb and filecachepb leave no element out silently (a skipped element has been reported or failed a conversion)", "C10-R15": "GeoIP data is looked up and cached under one read lock, so a refresh cannot leave a location of the previous database in the cache (shared with C05-R7)", "C10-R13": "newRequestInfo always stores the finder's answer; methods of the shared access objects do not write to their receiver", "C10-RC": "class rules (error chains, shadowed results, character classes, crossed arguments, pool constructors, array pools, loop completeness, loop-carried buffers, replacing setters, complete clones, Grow arithmetic, pooled-buffer escape, sorted searches, fresh decode targets, per-iteration objects, whole-message copies, codec guards) over the packages this property rests on", "C10-R12": "agdnet.NormalizeDomain is ToLower(TrimSuffix(name, \".\")); hand-written ASCII classes use inclusive boundaries", "C10-R11": "early (default) returns of the profile converters are guarded only by nil / Enabled tests of the input, never by its contents", "C10-R10": "codecs return a nil sub-message only for a nil input; access.Global keeps the whole configured subnet list and IsBlockedIP is a membership test on it",
+		Rules: map[string]string{"C10-R24": "the client address of a DoH request is the peer address of the connection (http.Request.RemoteAddr): remoteAddr and what it calls read no request header, so no client-chosen header decides which address the access rules judge", "C10-R23": "a full synchronisation clears and refills the profile database's indexes in one critical section (shared with C14-R3): no lookup sees an empty database in between and treats a client of a profile that rejects it as anonymous", "C10-R21": "the profile map of the profile database is written by the synchronisation (setProfiles) only: no other function, in particular not the request path (CreateAutoDevice), stores a profile object of its own there, which would put an older access configuration back after a newer one was synchronised", "C10-R22": "geoip.ipToCacheKey: the location cache keys an IPv4 address by its first three bytes (the /24 it belongs to) and an IPv6 address by its first seven: two clients share a cached location (and its ASN, which access rules test) only inside one such network", "C10-R20": "agdnet.NormalizeQueryDomain keeps the root name \".\" as it is (decided on the argument itself, before any normalisation empties it) and normalises every other name", "C10-R19": "the name handed to the global blocked-name rules (access.Interface.IsBlockedHost) is the question name normalised by agdnet.NormalizeQueryDomain, as for the profile's rules: the root stays \".\" (the empty string that NormalizeDomain makes of it matches no rule)", "C10-R18": "geoip.File.Refresh clears both location caches after it has installed the new databases (shared with C05-R10)", "C10-R16": "no call in package dnsserver passes same-typed arguments crossed (local and remote address of a connection, by the names of the getters that produced them)", "C10-R17": "builder.initAccess creates and assigns the global access manager on every successful path, empty lists included (a nil *access.Global wrapped in the service's interface field panics on the first request)", "C10-R14": "conversion loops of backendpb and filecachepb leave no element out silently (a skipped element has been reported or failed a conversion)", "C10-R15": "GeoIP data is looked up and cached under one read lock, so a refresh cannot leave a location of the previous database in the cache (shared with C05-R7)", "C10-R13": "newRequestInfo always stores the finder's answer; methods of the shared access objects do not write to their receiver", "C10-RC": "class rules (error chains, shadowed results, character classes, crossed arguments, pool constructors, array pools, loop completeness, loop-carried buffers, replacing setters, complete clones, Grow arithmetic, pooled-buffer escape, sorted searches, fresh decode targets, per-iteration objects, whole-message copies, codec guards) over the packages this property rests on", "C10-R12": "agdnet.NormalizeDomain is ToLower(TrimSuffix(name, \".\")); hand-written ASCII classes use inclusive boundaries", "C10-R11": "early (default) returns of the profile converters are guarded only by nil / Enabled tests of the input, never by its contents", "C10-R10": "codecs return a nil sub-message only for a nil input; access.Global keeps the whole configured subnet list and IsBlockedIP is a membership test on it",
 			"C10-R1": "decision tables of isBlockedByNets, matchASNs, IsBlocked, isBlockedByAccess",
 			"C10-R2": "Wrap closure: location stored before the decision; blocked edge silent; other edge proceeds",
 			"C10-R4": "question names are normalised before they are matched against access rules",
@@ -37,6 +37,12 @@ func init() {
 }
 
 func runC10(c *an.Ctx) {
+	// ---- R24: the DoH client address is the connection's peer, not a header
+	c.Floor("C10-R24", 1)
+	c10DoHPeerAddress(c, "C10-R24")
+	// ---- R23: clear and refill in one critical section (shared with C14-R3)
+	c.Floor("C10-R23", 1)
+	c.Borrow("C10-R23", runC14, func(o an.Obligation) bool { return o.Rule == "C14-R3" })
 	// ---- R21: who may write the profile map; R22: the key of the location cache
 	c.Floor("C10-R21", 1)
 	c10ProfileMapWriters(c, "C10-R21")
@@ -851,4 +857,48 @@ func c10LocationCacheKey(c *an.Ctx, rule string) {
 	}
 	c.Check(bad == "", rule, key, fn.Pos(), "3 leading bytes of As4, 7 leading bytes of As16",
 		bad+": addresses of different networks share one cached location, so the ASN and country that access rules test are those of whichever of them was looked up first")
+}
+
+// c10DoHPeerAddress: the global and profile access rules, rate limits and GeoIP
+// all judge the address that httpHandler.remoteAddr returns.  Forwarding headers
+// (X-Real-IP, X-Forwarded-For) are chosen by the client; without a list of
+// trusted proxies they must not enter that address.  remoteAddr, and every
+// repository function it calls, reads neither http.Request.Header nor calls a
+// method of http.Header.
+func c10DoHPeerAddress(c *an.Ctx, rule string) {
+	k := "dnsserver.(*httpHandler).remoteAddr"
+	fn := c.Prog.Fn(k)
+	key := k + " takes the client address from the connection only"
+	if fn == nil {
+		c.Und(rule, key, token.NoPos, "anchor not found")
+		return
+	}
+	bad := ""
+	seen := map[*ssa.Function]bool{}
+	var scan func(f *ssa.Function, depth int)
+	scan = func(f *ssa.Function, depth int) {
+		if f == nil || f.Blocks == nil || seen[f] || depth > 4 {
+			return
+		}
+		seen[f] = true
+		c.Analysed(an.FnKey(f))
+		an.Instrs(f, func(in ssa.Instruction) {
+			switch x := in.(type) {
+			case *ssa.FieldAddr:
+				if t, fld, _, ok := an.FieldOf(x); ok && t == "net/http.Request" && fld == "Header" {
+					bad = "the request's Header is read at " + c.Pos(x.Pos())
+				}
+			case ssa.CallInstruction:
+				if strings.HasPrefix(an.CalleeName(x), "(net/http.Header).") {
+					bad = an.Short(an.CalleeName(x)) + " is called at " + c.Pos(x.Pos())
+				}
+				if callee := an.StaticCallee(x); callee != nil && c.InRepo(callee) {
+					scan(callee, depth+1)
+				}
+			}
+		})
+	}
+	scan(fn, 0)
+	c.Check(bad == "", rule, key, fn.Pos(), "no request header is read on the way to the client address",
+		bad+": the address that the access rules, the rate limiter and GeoIP judge can be chosen by the client (a blocked client names an allowed address)")
 }
